@@ -17,6 +17,7 @@ import (
 type schedCase struct {
 	Hist []Op `json:"history"`
 	Mem  int  `json:"maxMemory"`
+	Desc bool `json:"descendingTargets,omitempty"` // every block's targets are fed in descending position order
 }
 
 // schedTrigger classifies, from the model only, whether the history contains the situations in
@@ -49,7 +50,7 @@ func schedTrigger(hist []Op) string {
 
 func evalSched(sc schedCase) (viol []Violation, evals int64) {
 	rep := func(sig, detail string) {
-		viol = append(viol, Violation{Prop: "C15", Sig: sig + schedTrigger(sc.Hist), Detail: detail, Case: mkCase("sched", sc), CaseID: fmt.Sprintf("%s m=%d", histStr(sc.Hist), sc.Mem)})
+		viol = append(viol, Violation{Prop: "C15", Sig: sig + schedTrigger(sc.Hist), Detail: detail, Case: mkCase("sched", sc), CaseID: fmt.Sprintf("%s m=%d%s", histStr(sc.Hist), sc.Mem, map[bool]string{true: " desc"}[sc.Desc])})
 	}
 	created := map[int]int{}
 	deleted := map[int]int{}
@@ -67,6 +68,9 @@ func evalSched(sc schedCase) (viol []Violation, evals int64) {
 		}
 		total += op.Adds
 		tg := append([]uint64(nil), pr.Targets...)
+		if sc.Desc {
+			sort.Slice(tg, func(i, j int) bool { return tg[i] > tg[j] })
+		}
 		if err := safe(func() error { cs.AddBlockSummary(tg, uint16(op.Adds)); return nil }); err != nil {
 			rep("AddBlockSummary panics", err.Error())
 			return
@@ -237,7 +241,7 @@ func containsInt(a []int, x int) bool {
 
 func schedPass(c *Ctx, nmax, depth int, tag string) {
 	{
-		c.Cov.Rule = "every block history (no de-duplication) with at most Nmax leaves ever added and at most D blocks (every deletion subset of the live leaves x every addition count, non-empty blocks); the summaries fed to AddBlockSummary are the reference proof targets in request order and the addition counts; GenerateCachingSchedule is evaluated for every memory limit from 1 to (leaves ever added)+1 on a fresh tracker; oracle from the model's birth/death table: every scheduled position of block b is the insertion slot of a leaf added in b and deleted in a later block, ascending without repeats, at most m scheduled leaves alive across any block, complete when m >= leaves ever added, no panic; states = histories, transitions = (history, limit) evaluations, a second, wider and shallower pass (more leaves, depth 3) reaches deletions of whole aligned subtrees of four; a third, structured pass uses 12 and 16 (thorough: up to 32) leaves with unions of aligned blocks deleted over up to four blocks and the memory limits 1, 2, 3, half, total-1, total, total+1; non-trivial = histories with a deletion"
+		c.Cov.Rule = "every block history (no de-duplication) with at most Nmax leaves ever added and at most D blocks (every deletion subset of the live leaves x every addition count, non-empty blocks); the summaries fed to AddBlockSummary are the reference proof targets in request order (and, for the limits 1, 2, total and total+1, the same targets in descending position order) and the addition counts; GenerateCachingSchedule is evaluated for every memory limit from 1 to (leaves ever added)+1 on a fresh tracker; oracle from the model's birth/death table: every scheduled position of block b is the insertion slot of a leaf added in b and deleted in a later block, ascending without repeats, at most m scheduled leaves alive across any block, complete when m >= leaves ever added, no panic; states = histories, transitions = (history, limit) evaluations, a second, wider and shallower pass (more leaves, depth 3) reaches deletions of whole aligned subtrees of four; a third, structured pass uses 12 and 16 (thorough: up to 32) leaves with unions of aligned blocks deleted over up to four blocks and the memory limits 1, 2, 3, half, total-1, total, total+1; non-trivial = histories with a deletion"
 		c.Cov.Bound[tag+"Nmax"] = nmax
 		c.Cov.Bound[tag+"depth"] = depth
 		// first-level subtrees as parallel tasks: enumerate all histories of depth<=2 as seeds
@@ -290,10 +294,22 @@ func schedPass(c *Ctx, nmax, depth int, tag string) {
 					if hasDel {
 						atomic.AddInt64(&nontriv, 1)
 					}
+					multi := false
+					for _, op := range hist {
+						if len(op.Dels) > 1 {
+							multi = true
+						}
+					}
 					for m := 1; m <= total+1; m++ {
 						vs, ev := evalSched(schedCase{Hist: hist, Mem: m})
 						atomic.AddInt64(&evalsN, ev)
 						c.Col.Add(vs...)
+						if multi && (m <= 2 || m >= total) {
+							// the same summaries with every target list in descending order
+							vs, ev := evalSched(schedCase{Hist: hist, Mem: m, Desc: true})
+							atomic.AddInt64(&evalsN, ev)
+							c.Col.Add(vs...)
+						}
 					}
 					if hasDel && atomic.AddInt32(&sampled, 1) <= 3 {
 						c.Cov.Sample(histStr(hist))
